@@ -40,6 +40,7 @@ func (m *Mutex) Lock() {
 		return
 	}
 	t := s.cur
+	m.dropStale(s)
 	Block(site, "mutex locked at "+m.lockSite, func() bool { return !m.locked })
 	m.locked = true
 	m.owner = t
@@ -50,9 +51,21 @@ func (m *Mutex) Lock() {
 	t.held[m] = site
 }
 
+// dropStale: a package-level mutex lives as long as the worker process, a simulated process image
+// does not. A lock left behind by a task of an image that has been killed is not held by anybody.
+func (m *Mutex) dropStale(s *Sim) {
+	if m.locked && m.owner != nil && m.owner.sim != s {
+		m.locked = false
+		m.owner = nil
+	}
+}
+
 func (m *Mutex) TryLock() bool {
 	site := callerSite(2)
 	Yield(site)
+	if s := cur; s != nil {
+		m.dropStale(s)
+	}
 	if m.locked {
 		return false
 	}
@@ -116,6 +129,9 @@ type RWMutex struct {
 
 func (m *RWMutex) Lock() {
 	site := callerSite(2)
+	if s := cur; s != nil {
+		m.w.dropStale(s)
+	}
 	Block(site, "rwmutex", func() bool { return !m.w.locked && m.readers == 0 })
 	m.w.locked = true
 	m.w.lockSite = site
@@ -130,6 +146,9 @@ func (m *RWMutex) Lock() {
 func (m *RWMutex) Unlock() { m.w.Unlock() }
 func (m *RWMutex) RLock() {
 	site := callerSite(2)
+	if s := cur; s != nil {
+		m.w.dropStale(s)
+	}
 	Block(site, "rwmutex(r)", func() bool { return !m.w.locked })
 	m.readers++
 }
